@@ -240,7 +240,7 @@ def explore(prog, cfg, stats=None, max_runs=200000, budget_s=600, initial=None, 
                 except Exception:
                     pass
                 rec = dict(label=label, trace=list(sched.trace), log=list(run.log), decisions=list(ex.taken), model=model)
-                if cfg.get('replay', True) and isinstance(v, Violation):
+                if cfg.get('replay', True):
                     try:
                         ok_, path_, detail_ = confirm(run, ex, sched, label)
                     except Exception as e_:
@@ -316,6 +316,9 @@ def confirm(run, ex, sched, label, prop='C18'):
     ok, detail = False, ''
     if 'error' in nat or rc != 0:
         detail = 'native run failed: %s' % (nat.get('error') or out[-200:])
+    elif label.startswith('panic') or label.startswith('deadlock'):
+        ok = bool(nat.get('panics'))
+        detail = 'native: %s' % (nat.get('panics') or 'no panic')
     elif label.startswith('leak'):
         ok = nat.get('all_done') and (nat.get('table_len_after_dropping_all') or 0) > 0
         detail = 'native intern table holds %s entries after every handle was dropped' % nat.get('table_len_after_dropping_all')
